@@ -156,6 +156,17 @@ def run_case(case, ctx):
         x.flags.writeable = False           # an array the caller has frozen: filling never needs to write into its input
     before = x.copy()
     method = case['method']
+    if case.get('const_as'):
+        ca = case['const_as']
+        mod_ = lambda m: m if not isinstance(m, float) else {'inf': float('inf'), '-inf': -float('inf'), 'int': float(int(m))}.get(ca, m)
+        arg_ = lambda m: m if not isinstance(m, float) else {'np32': np.float32, 'np16': np.float16, 'np64': np.float64, 'int': int}.get(ca, float)(mod_(m))
+        if any(isinstance(m, float) and float(arg_(m)) != mod_(m) for m in (method if isinstance(method, list) else [method])):
+            raise HarnessError('constant %r not exact as %s' % (method, ca))
+        call_method = [arg_(m) for m in method] if isinstance(method, list) else arg_(method)
+        method = [mod_(m) for m in method] if isinstance(method, list) else mod_(method)
+        ctx.cls('constant_given_as:%s' % ca)
+    else:
+        call_method = method
     methods = method if isinstance(method, list) else [method]
     limit = case['limit']
     if case.get('fn') == 'nona':
@@ -189,8 +200,8 @@ def run_case(case, ctx):
         ctx.check('nona_model', ok, lambda: 'nona(%s %r, edge=%r) = %s %r ; model keeps rows %r' % (case['kind'], case['cols'], edge, st, res, keep))
     else:
         lim_arg = np.int64(limit) if (limit is not None and case.get('np_limit')) else limit
-        m_arg = method
-        if case.get('alias_backfill'):
+        m_arg = call_method
+        if case.get('alias_backfill') and not case.get('const_as'):
             m_arg = 'backfill' if method == 'bfill' else ['backfill' if m_ == 'bfill' else m_ for m_ in method] if isinstance(method, list) else method      # pandas' other name for bfill
             ctx.cls('method_spelt_backfill')
         st, res = ctx.call(df_fillna, x, m_arg, 0, lim_arg) if case.get('positional') else ctx.call(df_fillna, x, method=m_arg, limit=lim_arg)
@@ -294,6 +305,9 @@ def gen_random(rng):
         case['diff_only'] = True
     if intidx is not None:
         case['intidx'] = intidx
+    if any(isinstance(m, float) for m in (method if isinstance(method, list) else [method])) and rng.random() < 0.35:
+        # the constant as a caller may hold it: a numpy scalar of another precision (the mean of a float32 array), or an infinity
+        case['const_as'] = rng.choice(['np32', 'np16', 'np64', 'inf', '-inf', 'int'])
     if kind in ('arr1', 'arr2') and rng.random() < 0.3:
         case['readonly'] = True
     if kind == 'frame' and rng.random() < 0.12:
